@@ -1,7 +1,20 @@
 import SigpyVerif.Model.Py
 import SigpyVerif.Model.Proto
 import SigpyVerif.Model.C01Proto
+import SigpyVerif.Model.C04
 namespace SigpyVerif.Drv.C04
-/-- protocol handler for property C04: the same `mats` request as C01 (third matrix = `normal e`). -/
-def handle (toks : List String) : String := SigpyVerif.C01.Proto.handle toks
+open SigpyVerif SigpyVerif.Proto
+/-- protocol handler for property C04: the same `mats` request as C01 (third matrix = `normal e`), and
+    `cover L=.. B=.. S=..`: per-axis cover counts (one list per axis, `|`-separated) with the
+    `num_blks` of `ArrayToBlocks.__init__`. -/
+def handle (toks : List String) : String :=
+  match toks.head? with
+  | some "cover" =>
+    match (kv toks "L").bind parseIntList?, (kv toks "B").bind parseIntList?, (kv toks "S").bind parseIntList? with
+    | some L, some B, some S =>
+      if L.length ≠ B.length ∨ L.length ≠ S.length ∨ L.isEmpty then "err shape" else
+      if (S.any fun s => s ≤ 0) ∨ (B.any fun b => b ≤ 0) ∨ ((L.zip B).any fun (l, b) => l < b) then "err value" else
+      "ok " ++ " | ".intercalate (((L.zip (B.zip S)).map fun (l, b, s) => fmtIntList (C04.coverAxis l b s)))
+    | _, _, _ => "err bad-op"
+  | _ => SigpyVerif.C01.Proto.handle toks
 end SigpyVerif.Drv.C04
